@@ -253,6 +253,8 @@ fn depth_templates(d: usize, in_loop: bool, f: &mut dyn FnMut(&Stmt) -> bool) ->
         es(int(1)),
         // a function definition (its code starts with a jump over its body)
         es(func("hulp", &[], vec![Stmt::Return(int(4))])),
+        // an element assignment (three operands, the only statement whose target is not a name)
+        es(assign(index(id("arr"), int(0)), infix(index(id("arr"), int(0)), Operator::Add, int(1)))),
     ];
     if in_loop {
         leaves.push(Stmt::Break);
@@ -305,6 +307,7 @@ pub fn sibling_templates(f: &mut dyn FnMut(&[Stmt]) -> bool) -> bool {
             Stmt::Block(vec![]),
             es(int(1)),
             es(func("hulp", &[], vec![Stmt::Return(int(4))])),
+            es(assign(index(id("arr"), int(0)), infix(index(id("arr"), int(0)), Operator::Add, int(1)))),
             Stmt::Break,
             Stmt::Continue,
         ];
@@ -326,7 +329,7 @@ pub fn sibling_templates(f: &mut dyn FnMut(&[Stmt]) -> bool) -> bool {
                         } else {
                             es(whil(infix(id("n"), Operator::Lt, int(2)), vec![es(assign(id("n"), infix(id("n"), Operator::Add, int(1)))), s1.clone(), s2.clone(), s3.clone()]))
                         };
-                        let mut prog = vec![es(func("t", &["a", "b"], vec![let_("n", int(0)), lp, es(int(9))]))];
+                        let mut prog = vec![let_("arr", array(vec![int(0), int(0)])), es(func("t", &["a", "b"], vec![let_("n", int(0)), lp, es(int(9))]))];
                         for (a, b) in [(true, true), (true, false), (false, true), (false, false)] {
                             prog.push(es(calln("print", vec![array(vec![int(5), calln("t", vec![boolean(a), boolean(b)]), int(6)])])));
                         }
@@ -357,10 +360,11 @@ pub fn sibling_templates(f: &mut dyn FnMut(&[Stmt]) -> bool) -> bool {
                     if tail {
                         body.push(es(int(9)));
                     }
-                    let mut prog = vec![es(func("t", &["a", "b"], body))];
+                    let mut prog = vec![let_("arr", array(vec![int(0), int(0)])), es(func("t", &["a", "b"], body))];
                     for (a, b) in [(true, true), (true, false), (false, true), (false, false)] {
                         prog.push(es(calln("print", vec![array(vec![int(5), calln("t", vec![boolean(a), boolean(b)]), int(6)])])));
                     }
+                    prog.push(print1(id("arr")));
                     renumber_prints(&mut prog);
                     if !f(&prog) {
                         return false;
@@ -540,7 +544,7 @@ fn depth_family(sh: &mut Shard, tier: Tier) {
             if tail {
                 body.push(es(int(9)));
             }
-            let mut prog = vec![es(func("t", &["a", "b"], body))];
+            let mut prog = vec![let_("arr", array(vec![int(0), int(0)])), es(func("t", &["a", "b"], body))];
             for (a, b) in [(true, true), (true, false), (false, true), (false, false)] {
                 prog.push(es(calln("print", vec![array(vec![int(5), calln("t", vec![boolean(a), boolean(b)]), int(6)])])));
             }
